@@ -38,8 +38,32 @@ UNITS = {
                 assumptions=[], not_covered=[]),
 }
 
+UNITS['U09k'] = dict(
+    kind='kani', crate='kani/U09', needs_lock=True,
+    title='aggregate.rs / merge_aggregate.rs: SumI64, Count, MaxI64, MinI64 accumulate/combine and Combinable<i64>::combine (complete)',
+    harnesses=[dict(name='proofs::sum_accumulate_checked_%s' % t, clause='flag <==> acc + v does not fit i64; !flag ==> exact', fn='SumI64::accumulate_checked<%s>' % t) for t in _T4]
+    + [dict(name='proofs::sum_combine_checked', clause='flag <==> a + b does not fit; !flag ==> exact', fn='SumI64::combine_checked'),
+       dict(name='proofs::sum_unit_is_zero', clause='units of SUM/COUNT/MAX/MIN', fn='Aggregator::unit'),
+       dict(name='proofs::count_accumulate', clause='COUNT adds one per row', fn='Count::accumulate'),
+       dict(name='proofs::max_min_lattice', clause='MAX/MIN accumulate and combine return the larger/smaller operand', fn='MaxI64/MinI64'),
+       dict(name='proofs::combine_i64', clause='NULL side contributes nothing; SUM/COUNT exact or Err(Overflow); MAX/MIN lattice; float aggregators rejected', fn='Combinable<i64>::combine'),
+       dict(name='proofs::vx_canary', expect_fail=True)],
+    assumptions=['A-count-range: COUNT accumulators stay below 2^32-1 per partition group and 2^62 across partitions',
+                 'shim: QueryError and fatal!/error! macros replaced by kani/common/shim.rs (no formatting)'],
+    not_covered=['SumF64/MaxF64/MinF64 and Combinable<OrderedFloat<f64>> (floating point)'])
+
+UNITS['U13k'] = dict(
+    kind='kani', crate='kani/U13',
+    title='LIMIT/OFFSET arithmetic: QueryTask::convert_to_output_format (slice), QueryTask::combined_limit, NormalFormQuery::run (slice) (complete)',
+    harnesses=[dict(name='proofs::output_window_contract', clause='count == min(limit, len.saturating_sub(offset)); window in bounds; no panic', fn='QueryTask::convert_to_output_format[slice]'),
+               dict(name='proofs::combined_limit_contract', clause='limit + offset without overflow (saturating)', fn='QueryTask::combined_limit'),
+               dict(name='proofs::partition_limit_contract', clause='limit + offset without overflow (saturating)', fn='NormalFormQuery::run[slice]'),
+               dict(name='proofs::vx_canary', expect_fail=True)],
+    assumptions=['slice: only the statements computing limit/offset/count are extracted; the row/column copying that follows uses them as offset..offset+count'],
+    not_covered=['batch_merging::combine select-branch count', 'row assembly in convert_to_output_format'])
+
 PROPS = {
-    'C06': dict(level='proof', units=['U08k'],
+    'C06': dict(level='proof', units=['U08k', 'U09k'],
                 level_text='complete (loop-free, full-domain) Kani proofs of the checked arithmetic kernels',
                 level_note='planner choice of checked vs unchecked node is not covered',
                 technique='contract-based deductive verification (Kani complete harnesses) of the real operator file',
